@@ -173,12 +173,13 @@ func runCell(r *vh.Run, c h2term.Cell) {
 				r.Count("marker:"+fmt.Sprint(v), 1)
 			}
 		}
+		var sigs []string
 		for _, v := range res.Viols {
 			r.ViolationCase(c, v.Sig, v.What, v.Witness)
+			sigs = append(sigs, v.Sig)
 		}
-		if len(res.Viols) == 0 {
-			r.Sample(map[string]interface{}{"cell": c, "params": res.Params, "wall_ms": res.WallMS})
-		}
+		r.Sample(map[string]interface{}{"cell": c, "params": res.Params, "proxy_returned": res.Returned,
+			"violated": sigs, "wall_ms": res.WallMS})
 		return
 	}
 	r.SetCase(c)
